@@ -1352,6 +1352,17 @@ func (ss *ServerSession) handleRequestInner(sc *ServerConn, req *base.Request) (
 			for _, sm := range ss.setuppedMedias {
 				err = sm.start()
 				if err != nil {
+					// undo the state change, otherwise the session remains in state RECORD
+					// without a timeout timer and is never closed.
+					for _, sm2 := range ss.setuppedMedias {
+						sm2.stop()
+					}
+					ss.destroyWriter()
+					ss.timeDecoder = nil
+					ss.propsMutex.Lock()
+					ss.state = ServerSessionStatePreRecord
+					ss.propsMutex.Unlock()
+
 					return &base.Response{
 						StatusCode: base.StatusBadRequest,
 					}, err
